@@ -359,13 +359,33 @@ func (fx *FnExec) ghostSets(st *State, fr *frame, site ssa.Instruction) {
 			}
 		}
 		if srt == "" {
-			panic(evalErr{"ghostset: undeclared ghost variable " + gs.Name})
+			// a declared (global) ghost location, e.g. slotId(rsp.ch)
+			tgt, perr := ParseExpr(gs.Name)
+			if perr != nil {
+				panic(evalErr{"ghostset: bad target " + gs.Name})
+			}
+			fx.assignGhost(st, env, tgt, v.t)
+			continue
 		}
 		st.heapSet("gv."+gs.Name, srt, v.t)
 	}
 }
 
 func (fx *FnExec) siteAsserts(st *State, fr *frame, cc *ssa.CallCommon, args *callArgs, site ssa.Instruction) {
+	if fr.fc != nil && len(fr.fc.Assumes) > 0 {
+		name := fx.ord(fr.fn, site, "")
+		if cs := fr.fc.Assumes[name]; len(cs) > 0 {
+			env := fx.siteEnv(st, fr, site)
+			for _, c := range cs {
+				v, err := env.safeEval(c.Expr)
+				if err != nil {
+					panic(fmt.Sprintf("%s:%d: %v", c.File, c.Line, err))
+				}
+				st.assume(v.t)
+				fx.notes = appendUnique(fx.notes, fmt.Sprintf("ASSUMED at %s in %s: %s (%s)", name, shortFn(fr.fn), c.Src, c.Label))
+			}
+		}
+	}
 	if fr.fc == nil || len(fr.fc.Asserts) == 0 {
 		return
 	}
@@ -793,6 +813,16 @@ func (fx *FnExec) applyContract(st *State, fr *frame, tgt callTarget, sig *types
 			}
 		}
 	}
+	// stable facts about shared state must hold where the goroutine is spawned
+	if mode == "go" {
+		for i, c := range fc.Stable {
+			v, err := env.safeEval(c.Expr)
+			if err != nil {
+				panic(fmt.Sprintf("%s:%d: %v", c.File, c.Line, err))
+			}
+			fx.emit(st, fr, "requires", ordName+"/stable:"+clauseName(c, i), v.t, c.Props, c.Src)
+		}
+	}
 	// transfers (go): the spawned thread takes resources from this one
 	if mode == "go" {
 		for _, tr := range fc.Transfers {
@@ -911,6 +941,10 @@ func variantSuffix(fc *FuncContract) string {
 func (fx *FnExec) havocTarget(st *State, env *evalEnv, m Expr) {
 	switch x := m.(type) {
 	case *EField:
+		if hv, ok := fx.wholeFieldTarget(x, func(n string) bool { _, is := env.vars[n]; return is }, env.pkg); ok {
+			st.heapSet(hv.name, hv.sort, fx.freshConst("mod."+x.Name, hv.sort))
+			return
+		}
 		b := env.eval(x.X)
 		pt, ok := derefType(b.typ)
 		if !ok {
@@ -1038,6 +1072,15 @@ func (fx *FnExec) assignGhost(st *State, env *evalEnv, target Expr, v Term) {
 func (fx *FnExec) doBuiltin(st *State, fr *frame, x *ssa.Call, b *ssa.Builtin) {
 	cc := x.Common()
 	fx.ghostSets(st, fr, x)
+	{
+		ca := &callArgs{}
+		for _, a := range cc.Args {
+			ca.terms = append(ca.terms, st.val(a))
+			ca.vals = append(ca.vals, a)
+			ca.lvs = append(ca.lvs, nil)
+		}
+		fx.siteAsserts(st, fr, cc, ca, x)
+	}
 	arg := func(i int) Term { return st.val(cc.Args[i]) }
 	switch b.Name() {
 	case "len":
